@@ -226,7 +226,7 @@ macro_rules! producer_impl {
         }
         fn send_with(&self, v: u64) -> SendRes {
             let calls = std::cell::Cell::new(0u32);
-            let res = self.ch.send_with(|slot: &mut Tracked| { calls.set(calls.get() + 1); unsafe { std::ptr::write(slot, Tracked::new(v)) } });
+            let res = self.ch.send_with(|slot: &mut Tracked| { calls.set(calls.get() + 1); reactive_mutiny::verif::yield_point("harness.setter"); unsafe { std::ptr::write(slot, Tracked::new(v)) }; reactive_mutiny::verif::yield_point("harness.setter.done"); });
             match res {
                 keen_retry::RetryResult::Ok { .. } => SendRes { accepted: true, contract_ok: calls.get() == 1 },
                 keen_retry::RetryResult::Transient { input: setter, .. } | keen_retry::RetryResult::Fatal { input: setter, .. } => {
